@@ -352,7 +352,7 @@ fn fallback_body(fast_start: bool) {
     crate::vcover!(vlast.is_some() && alast.is_some() && vlast != alast, "tracks with different last deltas");
     core::mem::forget((w, r));
 }
-//@ prop=C03,C08 tier=quick cost=400 fns="Mp4Writer::finalize,finalize_standard,SampleTables::from_samples" bound="standard layout, 2 video + 2 audio samples, any remembered last deltas (Option<u32> each), any final pts < 2^31" unwind=7 stubs="build_moov_box(recording stand-in)" timeout=1400 mem=20
+//@ prop=C03,C08 tier=quick cost=400 fns="Mp4Writer::finalize,finalize_standard,SampleTables::from_samples" bound="standard layout, 2 video + 2 audio samples, any remembered last deltas (Option<u32> each), any final pts < 2^31" unwind=7 stubs="build_moov_box(recording stand-in)" timeout=1400 mem=12
 #[kani::proof]
 #[kani::unwind(7)]
 #[kani::stub(muxide::invariant_ppt::__assert_invariant_impl, crate::stubs::assert_invariant_stub)]
@@ -360,7 +360,7 @@ fn fallback_body(fast_start: bool) {
 pub fn c03_finalize_fallback_std() {
     fallback_body(false);
 }
-//@ prop=C03,C08 tier=quick cost=500 fns="Mp4Writer::finalize,finalize_fast_start,SampleTables::from_samples" bound="fast start, 2 video + 2 audio samples, any remembered last deltas, any final pts < 2^31" unwind=7 stubs="build_moov_box(recording stand-in)" timeout=1400 mem=20
+//@ prop=C03,C08 tier=thorough cost=500 fns="Mp4Writer::finalize,finalize_fast_start,SampleTables::from_samples" bound="fast start, 2 video + 2 audio samples, any remembered last deltas, any final pts < 2^31" unwind=7 stubs="build_moov_box(recording stand-in)" timeout=1400 mem=12
 #[kani::proof]
 #[kani::unwind(7)]
 #[kani::stub(muxide::invariant_ppt::__assert_invariant_impl, crate::stubs::assert_invariant_stub)]
